@@ -25,10 +25,11 @@ type supplied struct {
 	asts  map[string]*ast.FileNode
 	prs   map[string]parser.Result
 	proto map[string]*descriptorpb.FileDescriptorProto
+	noast map[string]parser.Result // parser.ResultWithoutAST over an unlinked proto
 }
 
 func supply(src map[string]string) (*supplied, error) {
-	s := &supplied{src: src, asts: map[string]*ast.FileNode{}, prs: map[string]parser.Result{}, proto: map[string]*descriptorpb.FileDescriptorProto{}}
+	s := &supplied{src: src, asts: map[string]*ast.FileNode{}, prs: map[string]parser.Result{}, proto: map[string]*descriptorpb.FileDescriptorProto{}, noast: map[string]parser.Result{}}
 	for n, text := range src {
 		h := reporter.NewHandler(nil)
 		a, err := parser.Parse(n, strings.NewReader(text), h)
@@ -55,6 +56,7 @@ func supply(src map[string]string) (*supplied, error) {
 			return nil, err
 		}
 		s.proto[n] = proto.Clone(pr3.FileDescriptorProto()).(*descriptorpb.FileDescriptorProto)
+		s.noast[n] = parser.ResultWithoutAST(proto.Clone(pr3.FileDescriptorProto()).(*descriptorpb.FileDescriptorProto))
 	}
 	return s, nil
 }
@@ -64,9 +66,11 @@ const (
 	formAST
 	formParseResult
 	formProto
+	formParseResultNoAST
+	nForms
 )
 
-var formNames = []string{"source", "ast", "parse-result", "proto"}
+var formNames = []string{"source", "ast", "parse-result", "proto", "parse-result-without-ast"}
 
 func (s *supplied) resolver(assign map[string]int) protocompile.Resolver {
 	return protocompile.WithStandardImports(protocompile.ResolverFunc(func(name string) (protocompile.SearchResult, error) {
@@ -81,6 +85,8 @@ func (s *supplied) resolver(assign map[string]int) protocompile.Resolver {
 			return protocompile.SearchResult{ParseResult: s.prs[name]}, nil
 		case formProto:
 			return protocompile.SearchResult{Proto: s.proto[name]}, nil
+		case formParseResultNoAST:
+			return protocompile.SearchResult{ParseResult: s.noast[name]}, nil
 		}
 		return protocompile.SearchResult{Source: strings.NewReader(text)}, nil
 	}))
@@ -94,13 +100,16 @@ func (s *supplied) snapshot() map[string][]byte {
 	for n, pr := range s.prs {
 		out["pr:"+n] = detBytes(pr.FileDescriptorProto())
 	}
+	for n, pr := range s.noast {
+		out["pr-without-ast:"+n] = detBytes(pr.FileDescriptorProto())
+	}
 	return out
 }
 
 func TestC09(t *testing.T) {
 	r := vlib.Start(t, "C09")
 	defer r.Finish()
-	r.Extra("rule", "accepted generated models of 1-4 files; per model A assignments of input form {source, AST, parse result, unlinked proto} per file (all 4^n for n<=2 files, A sampled otherwise; A=8 quick, 40 thorough) "+
+	r.Extra("rule", "accepted generated models of 1-4 files; per model A assignments of input form {source, AST, parse result, unlinked proto, parse result without AST} per file (all 5^n when that is at most A, A sampled otherwise; A=8 quick, 40 thorough) "+
 		"x source-info modes {none, standard, extra-comments, extra-option-locations}; each assignment also run twice concurrently sharing the supplied objects under the race detector; "+
 		"supplied protos / parse results snapshotted (deterministic bytes) before and after. non-trivial = assignment using >=2 distinct forms or a non-source form; distinct = (model, assignment, mode)")
 	r.Extra("assumptions", []string{"the all-source compilation is the reference result", "deterministic marshalling detects any modification of a supplied proto"})
@@ -144,7 +153,7 @@ func TestC09(t *testing.T) {
 		before := sup.snapshot()
 		total := 1
 		for range names {
-			total *= 4
+			total *= nForms
 		}
 		for a := 0; a < A && a < total; a++ {
 			code := a
@@ -156,10 +165,10 @@ func TestC09(t *testing.T) {
 			var desc []string
 			c := code
 			for _, nme := range names {
-				assign[nme] = c % 4
-				forms[c%4] = true
-				desc = append(desc, nme+"="+formNames[c%4])
-				c /= 4
+				assign[nme] = c % nForms
+				forms[c%nForms] = true
+				desc = append(desc, nme+"="+formNames[c%nForms])
+				c /= nForms
 			}
 			mode := modes[(a+i)%len(modes)]
 			aid := fmt.Sprintf("%s/a%d/m%d", id, code, mode)
@@ -213,7 +222,7 @@ func TestC09(t *testing.T) {
 						continue
 					}
 					// forms that carry an AST must also agree on source info
-					if mode != protocompile.SourceInfoNone && assign[nme] != formProto {
+					if mode != protocompile.SourceInfoNone && assign[nme] != formProto && assign[nme] != formParseResultNoAST {
 						if !bytes.Equal(detBytes(gsi), detBytes(wsi)) {
 							w["file"] = nme
 							r.Violation("c09.source-info-differs", formNames[assign[nme]]+": source info differs from the all-source run", aid, w)
@@ -238,7 +247,7 @@ func TestC09(t *testing.T) {
 
 func formsUsed(forms map[int]bool) []string {
 	var out []string
-	for k := 0; k < 4; k++ {
+	for k := 0; k < nForms; k++ {
 		if forms[k] {
 			out = append(out, formNames[k])
 		}
